@@ -4,7 +4,8 @@ import ErgVerif.C03.Model
 /-!
 Driver for C03 (`ergmodel_c03`).
 core rows: id \t (pair <P> <Q>) \t (lhs <P built>) (rhs <Q built>) (super <bool>)
-e2e rows : id \t (e2e <P> <Q>)  \t (e2e accept|reject …) (hook <bool>)
+e2e rows : id \t (e2e|e2elit|e2en|e2elitn <P> <Q>)  \t (e2e accept|reject …) (hook <bool>)
+           (`e2e*n`: negation spelled `not (p)` instead of `~(p)`; class of the recorded finding C03-not-call-predicate)
 stdout   : id \t <model output> \t <spec verdict> \t <inK>
 
 Model output of a core row: the structures built by the transcribed constructors and the verdict of the transcribed
@@ -85,7 +86,7 @@ def handle (legacy : Bool) (line : String) : String :=
                 specOf b ip iq
             let ink := if legacy && spec.startsWith "viol" then legacyClass p q else "-"
             id ++ "\t" ++ model ++ "\t" ++ spec ++ "\t" ++ ink
-          else if kind = "e2e" || kind = "e2elit" then
+          else if kind = "e2e" || kind = "e2elit" || kind = "e2en" || kind = "e2elitn" then
             let accepted := match findTagged "e2e" xs with
               | some (.atom "accept" :: _) => some true
               | some (.atom "reject" :: _) => some false
@@ -93,7 +94,12 @@ def handle (legacy : Bool) (line : String) : String :=
             let spec := match accepted with
               | none => "viol:front-end-crashed-or-malformed"
               | some b => specOf b p q
-            let ink := if legacy && spec.startsWith "viol" then legacyClass p q else "-"
+            -- recorded finding: `not (p)` spelled with the builtin function becomes a `Call` predicate
+            let notFn := (kind = "e2en" || kind = "e2elitn") && (ep.hasNot || eq_.hasNot)
+            let ink := if !spec.startsWith "viol" then "-"
+              else if notFn then "C03-not-call-predicate"
+              else if substituteShortcutClass p q then "C03-substitute-not-shortcut"
+              else if legacy then legacyClass p q else "-"
             id ++ "\t" ++ impl ++ "\t" ++ spec ++ "\t" ++ ink
           else id ++ "\tbad-input\t-\t-"
       | _, _ => id ++ "\tbad-input\t-\t-"
